@@ -16,6 +16,6 @@ for n in $NAMES; do
 done
 git -C /repo worktree remove --force $W
 TAG=$(python3 -c "import hashlib;print(hashlib.sha1(b'$W').hexdigest()[:10])")
-rm -rf /verif/build/target-$TAG /verif/build/harness-$TAG /verif/build/cargo-$TAG.lock
+rm -rf /verif/build/target-$TAG /verif/build/harness-$TAG /verif/build/cargo-$TAG.lock /verif/build/evidence-$TAG
 echo "missed: $MISSED"
 exit $MISSED
